@@ -443,7 +443,10 @@ IN_GROUPS = ("before_transition", "on_exit_state", "on_transition", "on_enter_st
 # attached from inside one of them inserts its generic callback *before* the running one
 CONV_POINTS = {"before_go": "before_transition", "on_exit_a": "on_exit_state",
                "on_go": "on_transition", "on_enter_b": "on_enter_state",
-               "after_go": "after_transition"}
+               "after_go": "after_transition",
+               # the initial state's own hook: runs during the activation and whenever `a` is
+               # entered again
+               "on_enter_a": "on_enter_state"}
 IN_POINTS = ("vld", "ok") + IN_GROUPS + tuple(CONV_POINTS)
 
 
@@ -453,8 +456,10 @@ def in_callback_cases():
         for point in IN_POINTS:
             for who in ("listener", "machine", "model"):
                 for at in ("first-event", "second-event", "activation"):
-                    if at == "activation" and point != "on_enter_state":
+                    if at == "activation" and point not in ("on_enter_state", "on_enter_a"):
                         continue
+                    if point == "on_enter_a" and at == "second-event":
+                        continue     # `a` is entered a second time only by a fourth event
                     out.append((asyn, point, who, at))
     return out
 
@@ -540,6 +545,8 @@ def run_in_callback(asyn, point, who, at):
     attach_seg = {"activation": 0, "first-event": 1, "second-event": 2}[at]
     if at == "second-event" and point in ("on_exit_a", "on_enter_b"):
         attach_seg = 3       # these hooks only run for the events leaving a / entering b
+    if at == "first-event" and point == "on_enter_a":
+        attach_seg = 2       # the first event that enters `a` is the second one
     for si, seg in enumerate(segs):
         ev = "__initial__" if si == 0 else "go"
         own = ("sm", "P") if who == "machine" else ("sm",)
@@ -551,6 +558,8 @@ def run_in_callback(asyn, point, who, at):
         n_p = sum(1 for (l_, _g, _e) in seg if l_ == "P")
         applies = (si > 0 and (point not in ("on_exit_a", "on_enter_b") or si in (1, 3))) or \
             (si == 0 and point == "on_enter_state")
+        if point == "on_enter_a":
+            applies = si in (0, 2)
         if n_p != (1 if applies else 0):
             return (f"event {si} ({ev}): the callback `{point}` that attaches the listener ran "
                     f"{n_p} time(s), expected {1 if applies else 0}")
